@@ -94,35 +94,74 @@ Definition good_history : list (step N tout) :=
   [Build _ _; Edit _ _ 1 11; Check _ _; Build _ _; SetCfg _ _ cfgB; Build _ _; DelOut _ _ 2; Build _ _;
    Edit _ _ 2 7; Check _ _].
 
-Ltac conj_split := repeat match goal with |- _ /\ _ => split end.
+(* boolean versions of the side conditions, so that [safe] of a concrete history is decided by
+   one vm_compute *)
+Notation tanalysed := (analysed N (fun c => c) tout N tmapneeded).
+Notation tcheck_safe := (check_safe N (fun c => c) tout N tdeps tmapneeded).
 
-Ltac dp_solve :=
-  unfold deps_present; vm_compute s_snap; lazy beta iota; try exact I;
-  let f := fresh "f" in let Hf := fresh "Hf" in let Hn := fresh "Hn" in
-  let g := fresh "g" in let Hg := fresh "Hg" in
-  intros f Hf Hn g Hg; vm_compute in Hf;
-  destruct Hf as [<-|[<-|[]]]; vm_compute in Hg; try contradiction;
-  destruct Hg as [<-|[]]; vm_compute; tauto.
+Definition dp_b (co : bool) (s : tstate) : bool :=
+  match s_snap _ _ _ s with
+  | None => true
+  | Some (P0, _) =>
+      forallb (fun f => mem f (tanalysed co s)
+                        || forallb (fun g => mem g (map fst (s_src _ _ _ s))) (tdeps P0 f))
+              (map fst (s_src _ _ _ s))
+  end.
 
-(* a re-analysed file f whose closure member g has an output older than its source *)
-Ltac stale_member Hcl g :=
-  let t := fresh "t" in let H1 := fresh "H1" in let H4 := fresh "H4" in
-  destruct (Hcl g) as [t [H1 [_ [_ H4]]]]; [vm_compute; tauto|];
-  vm_compute in H1; inversion H1; subst; vm_compute in H4; apply H4; reflexivity.
+Definition time_fresh_b (s : tstate) (g : file) : bool :=
+  match s_gen _ _ _ s g with Some t => s_mtime _ _ _ s g <=? t | None => false end.
+
+Definition cs_b (s : tstate) : bool :=
+  forallb (fun f => negb (mem f (tanalysed false s))
+                    || negb (forallb (time_fresh_b s) (f :: tdeps (s_src _ _ _ s) f)))
+          (map fst (s_src _ _ _ s)).
+
+Definition step_ok_b (s : tstate) (st : step N tout) : bool :=
+  match st with
+  | Build _ _ => dp_b true s
+  | Check _ _ => dp_b false s && cs_b s
+  | TamperOut _ _ _ _ => false
+  | _ => true
+  end.
+
+Fixpoint safe_b (s : tstate) (h : list (step N tout)) : bool :=
+  match h with
+  | [] => true
+  | st :: r => step_ok_b s st && safe_b (tapply s st) r
+  end.
+
+Lemma dp_b_ok : forall co s, dp_b co s = true -> tdeps_present co s.
+Proof.
+  intros co s H. unfold dp_b in H. unfold deps_present.
+  destruct (s_snap _ _ _ s) as [[P0 c0]|]; [|exact I].
+  rewrite forallb_forall in H. intros f Hf Hn g Hg. specialize (H f Hf).
+  apply orb_true_iff in H. destruct H as [H|H].
+  - apply mem_In in H. contradiction.
+  - rewrite forallb_forall in H. apply mem_In. apply H. exact Hg.
+Qed.
+
+Lemma cs_b_ok : forall s, cs_b s = true -> tcheck_safe s.
+Proof.
+  intros s H. unfold cs_b in H. rewrite forallb_forall in H. intros f Hf Hin [_ Hcl].
+  specialize (H f Hf). apply orb_true_iff in H. destruct H as [H|H].
+  - apply negb_true_iff in H. apply mem_false in H. contradiction.
+  - apply negb_true_iff in H. assert (Ht : forallb (time_fresh_b s) (f :: tdeps (s_src _ _ _ s) f) = true); [|congruence].
+    apply forallb_forall. intros g Hg. destruct (Hcl g) as [t [H1 H2]].
+    + simpl in Hg. destruct Hg as [<-|Hg]; [left; reflexivity | right; exact Hg].
+    + unfold time_fresh_b. rewrite H1. apply N.leb_le. exact H2.
+Qed.
+
+Lemma safe_b_ok : forall h s, safe_b s h = true -> tsafe s h.
+Proof.
+  induction h as [|st r IH]; simpl; intros s H; [exact I|].
+  apply andb_true_iff in H. destruct H as [H1 H2]. split; [|apply IH; exact H2].
+  destruct st; simpl in *; try exact I; try discriminate.
+  - apply dp_b_ok. exact H1.
+  - apply andb_true_iff in H1. destruct H1. split; [apply dp_b_ok | apply cs_b_ok]; assumption.
+Qed.
 
 Lemma good_history_safe : tsafe (tinit P12 cfgA) good_history.
-Proof.
-  unfold good_history. cbn [safe step_ok]. conj_split.
-  all: try match goal with |- True => exact I end.
-  all: try match goal with |- deps_present _ _ _ _ _ _ _ _ => dp_solve end.
-  - (* check after the edit of 1: the output of 1 is older than its source, and 1 is in the
-       closure of both re-analysed files *)
-    intros f Hf Hin Hcl. vm_compute in Hf. destruct Hf as [<-|[<-|[]]]; stale_member Hcl 1.
-  - (* check after the edit of 2: only 2 is re-analysed, and its own output is stale *)
-    intros f Hf Hin Hcl. vm_compute in Hf. destruct Hf as [<-|[<-|[]]].
-    + vm_compute in Hin. destruct Hin as [Hin|[]]. discriminate Hin.
-    + stale_member Hcl 2.
-Qed.
+Proof. apply safe_b_ok. vm_compute. reflexivity. Qed.
 
 (* and it exercises restores: the last build restores file 1, the last check restores file 1 *)
 Example good_history_restores :
